@@ -42,6 +42,43 @@ class Term(object):
         return "%s(..%d)" % (self.fn, len(self.args))
 
 
+def term_eq(a, b):
+    """equality of two uninterpreted applications: True / False / z3 Bool.  Same function and pairwise equal arguments
+    (congruence) <=> equal values (ideal primitive: injective, outputs of different functions unrelated).  Arguments that
+    are different abstract inputs count as different (they are generic)."""
+    if a.key() == b.key():
+        return True
+    if a.fn != b.fn or len(a.args) != len(b.args):
+        return False
+    conds = []
+    for x, y in zip(a.args, b.args):
+        c = _arg_eq(x, y)
+        if c is False:
+            return False
+        if c is not True:
+            conds.append(c)
+    return S(z3.And(conds)) if conds else True
+
+
+def _arg_eq(x, y):
+    if valkey(x) == valkey(y):
+        return True
+    if isinstance(x, Term) and isinstance(y, Term):
+        return term_eq(x, y)
+    if isinstance(x, (SymSeq, bytes, bytearray)) and isinstance(y, (SymSeq, bytes, bytearray)):
+        try:
+            r = SymSeq(x).eq_term(SymSeq(y))
+        except Unsupported:
+            return False
+        return r
+    if isinstance(x, (SymInt, int)) and isinstance(y, (SymInt, int)) and not isinstance(x, bool) and not isinstance(y, bool):
+        r = S(toint(x) == toint(y))
+        return True if z3.is_true(r) else False if z3.is_false(r) else r
+    if isinstance(x, SymStr) and isinstance(y, (SymStr, str)):
+        return x.eq_term(y)
+    return False
+
+
 def valkey(r):
     if isinstance(r, SymSeq):
         out = []
@@ -359,10 +396,17 @@ class SymSeq(Sym):
                 conds += [toint(x.value) == toint(y.value), x.ln == y.ln]
             elif isinstance(x, Piece):
                 if x.base != y.base:
-                    if isinstance(x.base, Term) or isinstance(y.base, Term):
-                        # outputs of different uninterpreted applications: different values (ideal-primitive assumption)
+                    if isinstance(x.base, Term) and isinstance(y.base, Term):
+                        # outputs of uninterpreted applications: equal iff same function on equal arguments (ideal-primitive assumption)
+                        c = term_eq(x.base, y.base)
+                        if c is False:
+                            return False
+                        if c is not True:
+                            conds.append(c)
+                    elif isinstance(x.base, Term) or isinstance(y.base, Term):
                         return False
-                    return _positional_eq(self, o)
+                    else:
+                        return _positional_eq(self, o)
                 conds += [x.off == y.off, x.ln == y.ln]
             else:
                 conds.append(toint(x) == toint(y))
@@ -422,6 +466,63 @@ class SymSeq(Sym):
     def hex(self):
         raise Unsupported("hex() of symbolic bytes")
 
+    STRIP_BOUND = 3        # bytes of an abstract piece that one strip call may remove (longer runs are outside the bound)
+
+    def _strip(self, chars, left, right):
+        if chars is None:
+            chars = b" \t\n\r\x0b\x0c"
+        cs = []
+        for c in SymSeq(chars):
+            if isinstance(c, Gen):
+                raise Unsupported("strip() with an abstract set of bytes")
+            cs.append(c)
+        C = core.CTX
+
+        def member(v):
+            if isinstance(v, int) and all(isinstance(c, int) for c in cs):
+                return v in cs
+            return S(z3.Or([toint(v) == toint(c) for c in cs])) if cs else False
+
+        def decide(t):
+            return t if isinstance(t, bool) else C.branch(t)
+        items = list(self.items)
+        for side in ([0] if left else []) + ([-1] if right else []):
+            steps = 0
+            while items:
+                it = items[side]
+                if isinstance(it, Piece):
+                    if decide(S(it.ln <= 0)):
+                        items.pop(side)
+                        continue
+                    if isinstance(it, Fill):
+                        if decide(member(it.value)):
+                            items.pop(side)
+                            continue
+                        break
+                    v = byte_of(it.base, it.off if side == 0 else S(it.off + it.ln - 1))
+                    if steps >= self.STRIP_BOUND:
+                        C.assume(z3.Not(member(v)))
+                        break
+                    if decide(member(v)):
+                        steps += 1
+                        items[side] = it.sub(1, S(it.ln - 1)) if side == 0 else it.sub(0, S(it.ln - 1))
+                        continue
+                    break
+                if decide(member(it)):
+                    items.pop(side)
+                    continue
+                break
+        return SymSeq(items, self.kind)
+
+    def strip(self, chars=None):
+        return self._strip(chars, True, True)
+
+    def lstrip(self, chars=None):
+        return self._strip(chars, True, False)
+
+    def rstrip(self, chars=None):
+        return self._strip(chars, False, True)
+
     def concrete(self):
         """bytes if fully concrete else None"""
         if all(isinstance(i, int) for i in self.items):
@@ -460,7 +561,10 @@ def _positional_eq(a, b):
     if (ta - tb) or (tb - ta):
         only = (ta - tb) | (tb - ta)
         other_syms = _terms_of(a.items) | _terms_of(b.items)
-        if not any(("arr!%s" % repr(k)) in other_syms for k in only):
+        bases_a = [it.base for it in a.items if isinstance(it, Piece) and isinstance(it.base, Term) and it.base.key() in (ta - tb)]
+        bases_b = [it.base for it in b.items if isinstance(it, Piece) and isinstance(it.base, Term) and it.base.key() in (tb - ta)]
+        may_coincide = any(term_eq(p, q) is not False for p in bases_a for q in bases_b)
+        if not may_coincide and not any(("arr!%s" % repr(k)) in other_syms for k in only):
             return False
     C = core.CTX
     A, B = list(a._nonempty_norm()), list(b._nonempty_norm())
@@ -505,9 +609,18 @@ def _positional_eq(a, b):
                 else:
                     raise Unsupported("rope equality: abstract input compared with itself at a different offset")
             else:
-                if isinstance(x.base, Term) or isinstance(y.base, Term):
+                if isinstance(x.base, Term) and isinstance(y.base, Term):
+                    c = term_eq(x.base, y.base)
+                    if c is False:
+                        return False
+                    if c is not True:
+                        conds.append(c)
+                    if not _true(x.off == y.off) and not C.branch(x.off == y.off):
+                        return False
+                elif isinstance(x.base, Term) or isinstance(y.base, Term):
                     return False
-                raise Unsupported("rope equality between different abstract inputs")
+                else:
+                    raise Unsupported("rope equality between different abstract inputs")
             continue
         # one piece, one element: take one element off the piece
         if xp:
@@ -549,6 +662,7 @@ def byte_of(base, idx):
     C = core.CTX
     if C is not None and getattr(C, "symbolic", False):
         C.add(z3.And(t >= 0, t < 256))
+        C.selects.setdefault(name, []).append((S(toint(idx)), t))      # so that a model fixes the bytes the path looked at
     return SymInt(t, ub=256)
 
 
@@ -743,6 +857,58 @@ class SymStr(Sym):
                 cur.append(ch)
         out.append(SymStr(cur))
         return out
+
+    _LINE_BREAKS = (10, 11, 12, 13, 28, 29, 30, 133, 0x2028, 0x2029)
+
+    def splitlines(self, keepends=False):
+        if keepends:
+            raise Unsupported("SymStr.splitlines(keepends)")
+        out, cur = [], []
+        cs = self.codes()
+        i, n = 0, len(cs)
+
+        def is_(c, vals):
+            if isinstance(c, int):
+                return c in vals
+            return bool(SymBool(z3.Or([toint(c) == v for v in vals])))
+        pending = False
+        while i < n:
+            c = cs[i]
+            if is_(c, self._LINE_BREAKS):
+                out.append(SymStr(cur))
+                cur = []
+                pending = False
+                if is_(c, (13,)) and i + 1 < n and is_(cs[i + 1], (10,)):
+                    i += 1
+            else:
+                cur.append(self.chars[i])
+                pending = True
+            i += 1
+        if pending:
+            out.append(SymStr(cur))
+        return out
+
+    def _all_in(self, pred_ranges, limit):
+        if not self.chars:
+            return False
+        ts = []
+        for c in self.codes():
+            if isinstance(c, int):
+                if c >= limit:
+                    raise Unsupported("character class test beyond U+%04X" % limit)
+                if not any(lo <= c <= hi for lo, hi in pred_ranges):
+                    return False
+                continue
+            if core.CTX.is_sat(toint(c) >= limit):
+                raise Unsupported("character class test beyond U+%04X" % limit)
+            ts.append(z3.Or([z3.And(toint(c) >= lo, toint(c) <= hi) for lo, hi in pred_ranges]))
+        return bool(SymBool(S(z3.And(ts)))) if ts else True
+
+    def isdecimal(self):
+        return self._all_in([(48, 57)], 0x660)
+
+    def isdigit(self):
+        return self._all_in([(48, 57), (0xb2, 0xb3), (0xb9, 0xb9)], 0x660)
 
     def replace(self, old, new, count=-1):
         if not (isinstance(old, str) and isinstance(new, str) and len(old) == 1) or count != -1:
